@@ -53,6 +53,10 @@ def normalize_screen_name(username):
     if username.startswith("@"):
         username = username[1:]
 
+    # NOTE: nothing is left of "@" or of an empty path segment
+    if not username:
+        return None
+
     return username.lower()
 
 
